@@ -49,4 +49,13 @@ int rq_clear(ref_queue_t * q, rq_entry_t * dropped);
 /* number of stored entries that carry a text (has_text) and satisfy (flags & mask) == want */
 int rq_texts(const ref_queue_t * q, unsigned mask, unsigned want);
 
+/* Independent reader of a SYSTem:ERRor[:NEXT]? response (SCPI-99 21.8: <NR1>,<string>; IEEE 488.2 8.7.8 string
+ * response data: double-quoted, an embedded double quote is doubled), followed by one line ending (CR LF, LF or CR)
+ * and nothing else.  Writes the decoded string (doubled quotes undone, not NUL-terminated) to dst (at most cap bytes).
+ * *dlen = decoded length, *rawlen = number of characters between the outer quotes as transmitted.
+ * Returns 1 if well-formed and cap sufficed, 0 otherwise. */
+int rq_read_error_response(const char * resp, size_t n, long * code, char * dst, size_t cap, size_t * dlen, size_t * rawlen);
+/* reader of an <NR1> response followed by one line ending and nothing else */
+int rq_read_nr1_response(const char * resp, size_t n, long * value);
+
 #endif
